@@ -76,7 +76,7 @@ def coq_view(v, case):
              cbool(v["vok"]), cZ(v["vca"]), vkeys))
 
 
-BROKEN = ("{| k_steps := [(ODelete \"x\", {| t_valid := true; t_fvalid := true; t_delivered := true; t_res := 3; t_hosts := []; t_x := [] |})]; "
+BROKEN = ("{| k_steps := [(ODelete \"x\", {| t_valid := true; t_fvalid := true; t_delivered := true; t_res := 3; t_hosts := []; t_x := []; t_mid := [] |})]; "
           "k_probes := {| pb_eps := []; pb_schemas := []; pb_verbs := []; pb_hosts := [] |}; k_clusters := []; "
           "k_latest := []; k_obs := {| ob_hot := []; ob_fresh := [absent_view]; ob_fresh_res := [] |} |}")
 
@@ -86,7 +86,7 @@ def coq_case(case, obs):
         return BROKEN
     steps = []
     for p, s in zip(case["ops"], obs["steps"]):
-        steps.append(cpair(coq_op(p), "{| t_valid := %s; t_fvalid := %s; t_delivered := %s; t_res := %s; t_hosts := []; t_x := [] |}" %
+        steps.append(cpair(coq_op(p), "{| t_valid := %s; t_fvalid := %s; t_delivered := %s; t_res := %s; t_hosts := []; t_x := []; t_mid := [] |}" %
                            (cbool(s["valid"]), cbool(s.get("fvalid", False)), cbool(s["delivered"]),
                             cZ(RESCODE.get(s["res"], 3)))))
     probes = ("{| pb_eps := %s; pb_schemas := %s; pb_verbs := %s; pb_hosts := %s |}" %
@@ -101,11 +101,13 @@ def coq_case(case, obs):
 
 
 # ----------------------------------------------------------------------------- cases
-def mk(ops, clusters, aliases=(), fresh=(0, 0, 0)):
+def mk(ops, clusters, aliases=(), fresh=(0, 0, 0), via=None):
+    if via is None:
+        via = len(ops) % 2
     names = list(clusters) + [a for a in aliases if a not in clusters]
     return {"hosts": [B(h) for h in c10gen.hosts_for(names)], "ops": ops, "clusters": [B(c) for c in clusters],
             "schemas": [B(s) for s in c10gen.SCHEMAS] + [B(b""), B(b"nosuch")], "fresh": list(fresh), "views": True,
-            "nosteps": True}
+            "nosteps": True, "via": via}
 
 
 def S(name, kind, a=0, b=0, strat=0, glob=0):
@@ -160,6 +162,16 @@ def corpus():
     # admission race: v2 rejected (name conflict with b) and requeued, v3 synced, b deleted, stale v2 re-delivered
     cs.append(mk([AP(O(b"b", sn=[b"x"])), AP(O(b"a", log=1)), AP(O(b"a", sn=[b"x"], gates=[(1, 1)], cert=1, key=1), force=True),
                   AP(O(b"a", sn=[b"y"], log=2)), DEL(b"b"), RETRY(2)], [b"a", b"b"], [b"x", b"y"]))
+    # deliveries through the real event handler (queue.ResourceEventHandler) and worker step: add, update, delete,
+    # and a deletion that is only seen by a relist (cache.DeletedFinalStateUnknown tombstone; 33fd7e6): the deleted
+    # cluster must go, like on a fresh gateway; annotation-only and no-change updates must reach the controller
+    TOMB = dict(DEL(b"a"), tomb=True)
+    cs.append(mk([AP(O(b"a", sn=[b"x"], gates=[(1, 1)])), AP(O(b"b")), TOMB], [b"a", b"b"], [b"x"], via=1))
+    cs.append(mk([AP(O(b"a", sn=[b"x"])), TOMB, AP(O(b"a", sn=[b"y"])), dict(DEL(b"a"), tomb=True), AP(O(b"b", sn=[b"x", b"y"]))],
+                 [b"a", b"b"], [b"x", b"y"], via=1))
+    cs.append(mk([AP(O(b"a")), AP(O(b"a", gates=[(1, 1)])), AP(O(b"a", gates=[(1, 1)])), AP(O(b"a", gates=[(3, 1)], ann=1)),
+                  RETRY(3), AP(O(b"a"))], [b"a"], via=1))
+    cs.append(mk([AP(O(b"a", sn=[b"x"])), TOMB], [b"a"], [b"x"], via=0))
     # flow control: delete and re-add, type change, resize, duplicate use by policies, default schema
     cs.append(mk([AP(O(b"a", fc=[S(b"s1", 1, 5), S(b"s2", 2, 5, 10)], pol=[P(["get"], b"s1"), P(["*"], b"s2")])),
                   AP(O(b"a", fc=[S(b"s2", 1, 7)], pol=[P(["*"], b"s2")])),
